@@ -287,7 +287,24 @@ func (clientWireStream) Impl(c Case) string {
 		return "harness-error unparsable case"
 	}
 	ctls := ldapControls(r.Ctls)
-	f, err := clientFirstFrame(func(l *ldap.Conn) {
+	// (this stream runs in-process, without the re-runs of the live-server streams: a frame that did not arrive within
+	// the time limit - a machine that stood still - is asked for again; what go-ldap writes does not depend on the attempt)
+	var f []byte
+	var err error
+	for attempt := 0; attempt < 3; attempt++ {
+		if f, err = clientFirstFrame(clientWireOp(r, ctls)); err == nil {
+			break
+		}
+	}
+	if err != nil {
+		return "err " + err.Error()
+	}
+	return hx(f)
+}
+
+// clientWireOp is the go-ldap call that performs the request.
+func clientWireOp(r Req, ctls []ldap.Control) func(l *ldap.Conn) {
+	return func(l *ldap.Conn) {
 		switch r.Kind {
 		case "bind":
 			_, _ = l.SimpleBind(&ldap.SimpleBindRequest{Username: r.DN, Password: r.Pass, Controls: ctls, AllowEmptyPassword: true})
@@ -316,11 +333,7 @@ func (clientWireStream) Impl(c Case) string {
 		case "unbind":
 			_ = l.Unbind()
 		}
-	})
-	if err != nil {
-		return "err " + err.Error()
 	}
-	return hx(f)
 }
 
 func (clientWireStream) Oracle(c Case, impl string) (bool, string, string) {
